@@ -295,7 +295,7 @@ void iom_trace_reset(void) {
   for (i = 0; i < nobjs; i++) free(objs[i].data);
   for (i = 0; i < nnames; i++) free(names[i]);
   nobjs = nnames = nevents = 0;
-  memset(fdt, 0, sizeof(fdt));
+  { int k; for (k = 0; k < MAX_FD; k++) __atomic_store_n(&fdt[k].used, 0, __ATOMIC_RELEASE); }
   memset(counts, 0, sizeof(counts));
   unlock();
 }
@@ -581,8 +581,10 @@ static int do_open(int which, const char *path, int flags, mode_t mode) {
           if (__real_fstat(fd, &st) == 0) objs[oid].len = objs[oid].preexisting = st.st_size;
         }
       }
-      memset(f, 0, sizeof(*f));
-      f->used = 1; f->obj = oid; f->root = root; f->pc = pc; f->name = nid; f->num = num;
+      /* `used` is the publication flag of the entry (release/acquire): descriptors are recycled
+         between threads through the kernel, which the race detector cannot see */
+      f->fail_next_write = 0;
+      f->obj = oid; f->root = root; f->pc = pc; f->name = nid; f->num = num;
       f->isdir = isdir;
       f->writable = ((flags & O_ACCMODE) != O_RDONLY);
       f->append = (flags & O_APPEND) != 0;
@@ -591,6 +593,7 @@ static int do_open(int which, const char *path, int flags, mode_t mode) {
         objs[oid].open_w++;
         if (newobj) objs[oid].creator_fd = fd;
       }
+      __atomic_store_n(&f->used, 1, __ATOMIC_RELEASE);
     }
     if (g_trace) {
       iom_event_t *e = push_event(op, pc);
@@ -627,7 +630,7 @@ int __wrap_creat(const char *path, mode_t mode) {
 }
 
 static fdent_t *fdent(int fd) {
-  if (fd < 0 || fd >= MAX_FD || !fdt[fd].used) return NULL;
+  if (fd < 0 || fd >= MAX_FD || !__atomic_load_n(&fdt[fd].used, __ATOMIC_ACQUIRE)) return NULL;
   return &fdt[fd];
 }
 
@@ -642,7 +645,7 @@ int __wrap_close(int fd) {
       objs[f->obj].open_w--;
       if (objs[f->obj].creator_fd == fd) objs[f->obj].creator_fd = -1;
     }
-    f->used = 0;
+    __atomic_store_n(&f->used, 0, __ATOMIC_RELEASE);
     unlock();
     return __real_close(fd);
   }
@@ -650,7 +653,7 @@ int __wrap_close(int fd) {
   inj = pre(IOP_CLOSE, copy.pc, &fmode);
   /* the descriptor is released even when an error is reported (as on Linux) */
   lock();
-  f->used = 0;
+  __atomic_store_n(&f->used, 0, __ATOMIC_RELEASE);
   if (copy.obj >= 0 && copy.writable) {
     objs[copy.obj].open_w--;
     if (objs[copy.obj].creator_fd == fd) objs[copy.obj].creator_fd = -1;
